@@ -1,6 +1,7 @@
 (* P_Frames_Ref.v — proofs relating the executable model M_Frames (extract_iter as coded) to the
    reference interpretation M_FramesRef (documented rules), property C10. *)
 Require Import Base M_Frames M_FramesRef.
+From SS.gen Require Import SrcFacts.
 
 (* ------------------------------------------------------------------ determinism of the reference *)
 
@@ -126,7 +127,7 @@ Proof.
             | None => None end
         | None => None end
     | Insert l =>
-        match ref_unw ufuel 0 c (at_depth d l ++ rest) with
+        match ref_unw ufuel 0 c (at_depth d l ++ redepth_s d rest) with
         | Some (flat', es1) =>
             match ref_flat ufuel fuel c flat' with
             | Some (frs, lf, es2) => Some ((f, prehide c f) :: frs, lf, [] ++ es1 ++ es2)
@@ -339,18 +340,21 @@ Proof.
   unfold survivors in *. simpl. destruct (d <=? d'); auto.
 Qed.
 
+Lemma er_u_redepth d q : map er_u (redepth d q) = redepth_s d (map er_u q).
+Proof. destruct q as [|[[o i] d'] q]; reflexivity. Qed.
+
 (* the model's new to_unwrap queue after a non-None hook result [l] *)
 Definition edit_queue (c : cfg) (d : nat) (rest : list tent) (l : list ritem) : list qent :=
   let next := next_of rest in
   let mk q := (better_origin c q None, q, d) in
   if ends_with_next next l
-  then map mk (map (conc next) (removelast l)) ++ requeue rest
+  then map mk (map (conc next) (removelast l)) ++ redepth d (requeue rest)
   else map mk (map (conc next) l) ++ dropge d (requeue rest).
 
 Lemma edit_queue_ref c d rest l :
   map er_u (edit_queue c d rest l) =
   match seq_action (next_of_s (map er_t rest)) l with
-  | Insert l' => at_depth d l' ++ map er_t rest
+  | Insert l' => at_depth d l' ++ redepth_s d (map er_t rest)
   | Replace l' => at_depth d l' ++ survivors d (map er_t rest)
   | Keep => []
   end.
@@ -361,7 +365,7 @@ Proof.
     assert (l = []) as -> by (destruct l; auto; simpl in R; destruct (rev l); discriminate).
     reflexivity.
   - destruct (is_next (option_map er (next_of rest)) r).
-    + rewrite map_app, er_u_mk, er_u_requeue, (removelast_rev _ _ _ R). reflexivity.
+    + rewrite map_app, er_u_mk, er_u_redepth, er_u_requeue, (removelast_rev _ _ _ R). reflexivity.
     + rewrite map_app, er_u_mk, er_u_dropge, er_u_requeue. reflexivity.
 Qed.
 
@@ -383,7 +387,7 @@ Lemma run_frame_step c (P : plain c) fuel tu te errs out_rev t te1 errs1 t1 f or
     | EOne RNext =>
         match next_of rest with
         | None | Some QNone => run fuel false c [] rest errs1 out' (S t1)
-        | _ => run fuel false c (requeue rest) [] errs1 out' (S t1)
+        | _ => run fuel false c (redepth d (requeue rest)) [] errs1 out' (S t1)
         end
     | EOne x => run fuel false c (edit_queue c d rest [x]) [] errs1 out' (S t1)
     | ESeq l => run fuel false c (edit_queue c d rest l) [] errs1 out' (S t1)
@@ -495,12 +499,12 @@ Proof.
   - (* the bare next_inner *)
     destruct (next_of rest) as [[f'|f' o'|o'|]|] eqn:NX.
     3: { (* an object *)
-      assert (EQ : requeue rest = edit_queue c d rest [RNext]).
+      assert (EQ : redepth d (requeue rest) = edit_queue c d rest [RNext]).
       { unfold edit_queue. rewrite NX. reflexivity. }
       rewrite EQ. apply EDIT; try discriminate.
       simpl. rewrite next_of_er, NX. reflexivity. }
     3,4: apply KEEP; auto; try discriminate; simpl; rewrite next_of_er, NX; reflexivity.
-    1,2: assert (EQ : requeue rest = edit_queue c d rest [RNext]) by
+    1,2: assert (EQ : redepth d (requeue rest) = edit_queue c d rest [RNext]) by
            (unfold edit_queue; rewrite NX; reflexivity);
          rewrite EQ; apply EDIT; try discriminate;
          simpl; rewrite next_of_er, NX; reflexivity.
@@ -533,14 +537,19 @@ Proof.
   exists s. split; auto. rewrite HV. simpl. rewrite root_q_er in HU. econstructor; eauto.
 Qed.
 
+Lemma run_root_ref_fst c root fuel :
+  plain c -> fst (run fuel false c (root_q c root) [] [] [] 0) <> OutOfFuel ->
+  exists s, fst (run fuel false c (root_q c root) [] [] [] 0) = Ok s /\ Ref c [(s_of root, 0)] (view s).
+Proof.
+  intros P NF.
+  destruct (run fuel false c (root_q c root) [] [] [] 0) as [r t'] eqn:E.
+  eapply run_root_ref; eauto.
+Qed.
+
 Lemma model_eq_ref c root :
   plain c -> extract c root <> OutOfFuel ->
   exists s, extract c root = Ok s /\ Ref c [(s_of root, 0)] (view s).
-Proof.
-  unfold extract, extract_t. intros P NF.
-  destruct (run default_fuel false c (root_q c root) [] [] [] 0) as [r t'] eqn:E.
-  eapply run_root_ref; eauto.
-Qed.
+Proof. exact (run_root_ref_fst c root default_fuel). Qed.
 
 (* ... and since the reference is deterministic, it is THE reference result; in particular the
    executable reference used as second oracle in the cases files computes it *)
@@ -551,11 +560,17 @@ Proof.
   rewrite E in E'. inversion E'; subst. eapply Ref_det; eauto.
 Qed.
 
-Lemma model_eq_ref_run c root s r :
-  plain c -> extract c root = Ok s -> ref_extract c root = Some r -> view s = r.
+Lemma model_eq_ref_run_gen c root s r fuel :
+  plain c -> extract c root = Ok s -> ref_run fuel c [(s_of root, 0)] = Some r -> view s = r.
 Proof.
-  intros P E HR. eapply model_eq_ref_unique; eauto. eapply ref_run_sound; eauto.
+  intros P E HR. apply (model_eq_ref_unique c root s r P E).
+  exact (ref_run_sound c fuel [(s_of root, 0)] r HR).
 Qed.
+
+(* [ref_extract c root] is, by definition, [ref_run default_fuel c [(s_of root, 0)]] *)
+Lemma model_eq_ref_run c root s r :
+  plain c -> extract c root = Ok s -> ref_run default_fuel c [(s_of root, 0)] = Some r -> view s = r.
+Proof. exact (model_eq_ref_run_gen c root s r default_fuel). Qed.
 
 (* ------------------------------------------------------------------ one frame at the head of the
    elaboration queue: what its hook result does to the rest (prune / replace / insert / keep) *)
@@ -598,51 +613,380 @@ Definition run_result_is (c : cfg) (x : outcome * nat) (out : list fout) (errs :
   | (Raised _, _) => False
   | (OutOfFuel, _) => True
   end.
+(* Keep: nothing is re-unwrapped, the rest is walked as it is *)
+Definition keep_result_is (c : cfg) (x : outcome * nat) (out : list fout) (errs : list err)
+           (f : nat) (flat : list sent) : Prop :=
+  match x with
+  | (Ok s, _) => exists frs lf es, RefFlat c flat (frs, lf, es) /\
+       view s = (map view_frame (rev out) ++ (f, prehide c f) :: frs, lf, rev errs ++ es)
+  | (Raised _, _) => False
+  | (OutOfFuel, _) => True
+  end.
+
+(* what the reference says about a frame f of depth d standing before the unwrapped rest *)
+Definition frame_spec (c : cfg) (x : outcome * nat) (out : list fout) (errs : list err)
+           (f d : nat) (rest : list sent) : Prop :=
+  match elab c f with
+  | ERaise => run_result_is c x out errs f false [EElab f] (survivors d rest)
+  | e =>
+    match classify e (next_of_s rest) with
+    | Keep => keep_result_is c x out errs f rest
+    | Replace l => run_result_is c x out errs f (prehide c f) [] (at_depth d l ++ survivors d rest)
+    | Insert l => run_result_is c x out errs f (prehide c f) [] (at_depth d l ++ redepth_s d rest)
+    end
+  end.
 
 (* general form: the frames yielded so far are untouched, then the frame, then whatever the
    reference interpretation computes from the edited sequence alone *)
 Lemma run_frame_ref c (P : plain c) fuel f org d rest errs out t :
   nopy rest ->
-  let x := run fuel false c [] ((QFr f org, d) :: rest) errs out t in
-  let next := next_of_s (map er_t rest) in
-  match elab c f with
-  | ERaise => run_result_is c x out errs f false [EElab f] (map er_t (survivors d rest))
-  | e =>
-    match classify e next with
-    | Keep => run_result_is c x out errs f (prehide c f) [] (map er_t rest) \/
-              (* nothing re-unwrapped: the rest is walked as it is *)
-              match x with
-              | (Ok s, _) => exists frs lf es, RefFlat c (map er_t rest) (frs, lf, es) /\
-                   view s = (map view_frame (rev out) ++ (f, prehide c f) :: frs, lf, rev errs ++ es)
-              | (Raised _, _) => False
-              | (OutOfFuel, _) => True
-              end
-    | Replace l => run_result_is c x out errs f (prehide c f) [] (at_depth d l ++ map er_t (survivors d rest))
-    | Insert l => run_result_is c x out errs f (prehide c f) [] (at_depth d l ++ map er_t rest)
-    end
-  end.
+  frame_spec c (run fuel false c [] ((QFr f org, d) :: rest) errs out t) out errs f d (map er_t rest).
 Proof.
-  intros NP x next.
+  intros NP.
   assert (NP' : nopy ((QFr f org, d) :: rest)) by (apply nopy_cons; auto; discriminate).
   pose proof (run_ref c P fuel [] ((QFr f org, d) :: rest) errs out t NP') as H.
-  fold x in H. unfold run_result_is.
-  destruct x as [[s|e|] t']; try (destruct (elab c f); try destruct (classify _ next); auto; fail).
-  2: { destruct (elab c f); try destruct (classify _ next); auto. }
+  unfold frame_spec, run_result_is, keep_result_is.
+  destruct (run fuel false c [] ((QFr f org, d) :: rest) errs out t) as [[s|e|] t'].
+  2: contradiction.
+  2: destruct (elab c f); try destruct (classify _ _); exact I.
   destruct H as (sflat & es1 & frs & lf & es2 & HU & HR & HV).
-  inversion HU; subst sflat es1. rewrite app_nil_r in HR. simpl in HV. simpl in HR.
-  fold next in HR.
-  inversion HR; subst.
-  - (* keep *)
-    destruct (elab c f) eqn:E; try congruence;
-      match goal with H : classify _ _ = Keep |- _ => fold next in H; rewrite H end;
-      right; exists frs0, lf, es2; split; auto.
+  inversion HU; subst sflat es1. rewrite app_nil_r in HR. cbn [map er_t fst snd er] in HR.
+  rewrite HV. clear HV HU.
+  inversion HR; subst; clear HR; try discriminate.
   - destruct (elab c f) eqn:E; try congruence;
-      match goal with H : classify _ _ = Replace _ |- _ => fold next in H; rewrite H end;
-      exists frs0, lf, (es0 ++ es3); rewrite <- survivors_map; split; auto; econstructor; eauto.
+      match goal with H : classify _ _ = Keep |- _ => rewrite H end; eauto 6.
   - destruct (elab c f) eqn:E; try congruence;
-      match goal with H : classify _ _ = Insert _ |- _ => fold next in H; rewrite H end;
-      exists frs0, lf, (es0 ++ es3); split; auto; econstructor; eauto.
+      match goal with H : classify _ _ = Replace _ |- _ => rewrite H end;
+      (eexists _, _, _; split; [econstructor; eauto|reflexivity]).
+  - destruct (elab c f) eqn:E; try congruence;
+      match goal with H : classify _ _ = Insert _ |- _ => rewrite H end;
+      (eexists _, _, _; split; [econstructor; eauto|reflexivity]).
   - match goal with H : elab c f = ERaise |- _ => rewrite H end.
-    exists frs0, lf, (es0 ++ es3). rewrite <- survivors_map. split; [econstructor; eauto|].
-    rewrite HV. reflexivity.
+    eexists _, _, _; split; [econstructor; eauto|reflexivity].
+Qed.
+
+(* ------------------------------------------------------------------ C10_prune_exact / replace / insert *)
+
+Lemma prune_exact c fuel f org d rest errs out t :
+  plain c -> nopy rest -> elab c f = ESeq [] ->
+  let gone := callees d rest in
+  let kept := survivors d rest in
+  rest = gone ++ kept /\ Forall (fun e => d <= snd e) gone /\
+  (forall q d' k, kept = (q, d') :: k -> d' < d) /\
+  run_result_is c (run fuel false c [] ((QFr f org, d) :: rest) errs out t)
+                out errs f (prehide c f) [] (map er_t kept).
+Proof.
+  intros P NP E gone kept.
+  destruct (callees_survivors d rest) as (A & B & C).
+  repeat split; auto.
+  pose proof (run_frame_ref c P fuel f org d rest errs out t NP) as H.
+  unfold frame_spec in H. rewrite E in H. simpl in H.
+  unfold kept. rewrite <- survivors_map. exact H.
+Qed.
+
+(* `items[-1] is next_inner` *)
+Definition ends_next (next : option sitem) (l : list ritem) : bool :=
+  match rev l with r :: _ => is_next next r | [] => false end.
+
+Lemma replace_rule c fuel f org d rest errs out t l :
+  plain c -> nopy rest -> elab c f = ESeq l ->
+  let next := next_of_s (map er_t rest) in
+  ends_next next l = false ->
+  run_result_is c (run fuel false c [] ((QFr f org, d) :: rest) errs out t)
+                out errs f (prehide c f) []
+                (at_depth d (map (conc_s next) l) ++ map er_t (survivors d rest)).
+Proof.
+  intros P NP E next EN.
+  pose proof (run_frame_ref c P fuel f org d rest errs out t NP) as H.
+  unfold frame_spec in H. rewrite E in H. fold next in H.
+  unfold classify, seq_action in H. unfold ends_next in EN.
+  rewrite <- survivors_map.
+  destruct (rev l) as [|r pre] eqn:R.
+  - assert (l = []) as -> by (destruct l; auto; simpl in R; destruct (rev l); discriminate).
+    exact H.
+  - rewrite EN in H. exact H.
+Qed.
+
+Lemma insert_rule c fuel f org d rest errs out t l r :
+  plain c -> nopy rest -> elab c f = ESeq (l ++ [r]) ->
+  let next := next_of_s (map er_t rest) in
+  is_next next r = true ->
+  run_result_is c (run fuel false c [] ((QFr f org, d) :: rest) errs out t)
+                out errs f (prehide c f) []
+                (at_depth d (map (conc_s next) l) ++ redepth_s d (map er_t rest)).
+Proof.
+  intros P NP E next EN.
+  pose proof (run_frame_ref c P fuel f org d rest errs out t NP) as H.
+  unfold frame_spec in H. rewrite E in H. fold next in H.
+  unfold classify, seq_action in H. rewrite rev_app_distr in H. simpl in H.
+  rewrite EN, rev_involutive in H. exact H.
+Qed.
+
+(* the depth bookkeeping of the insert form: only next_inner may change depth, to min d d' *)
+Lemma redepth_s_spec d rest :
+  map fst (redepth_s d rest) = map fst rest /\
+  match rest, redepth_s d rest with
+  | (_, d') :: r, (_, d'') :: r' => d'' = Nat.min d d' /\ r' = r
+  | [], [] => True
+  | _, _ => False
+  end.
+Proof. destruct rest as [|[s d'] r]; simpl; auto. Qed.
+
+(* ------------------------------------------------------------------ C10_none_is_flatten *)
+
+Fixpoint frame_prefix (c : cfg) (flat : list sent) : list (nat * bool) :=
+  match flat with (SFrame f, _) :: r => (f, prehide c f) :: frame_prefix c r | _ => [] end.
+Fixpoint after_frames (flat : list sent) : list sent :=
+  match flat with (SFrame _, _) :: r => after_frames r | _ => flat end.
+
+Lemma RefFlat_all_none c : (forall f, elab c f = ENone) ->
+  forall flat r, RefFlat c flat r -> r = (frame_prefix c flat, map fst (after_frames flat), []).
+Proof.
+  intros AN flat r H. induction H; simpl; auto.
+  - destruct s; try discriminate; reflexivity.
+  - inversion IHRefFlat; subst. reflexivity.
+  - rewrite AN in *. discriminate.
+  - rewrite AN in *. discriminate.
+  - rewrite AN in *. discriminate.
+Qed.
+
+Lemma none_is_flatten c root s :
+  plain c -> (forall f, elab c f = ENone) -> extract c root = Ok s ->
+  exists flat es, Unw c 0 [(s_of root, 0)] flat es /\
+                  view s = (frame_prefix c flat, map fst (after_frames flat), es).
+Proof.
+  intros P AN E. destruct (model_eq_ref c root P) as (s' & E' & HR); [congruence|].
+  rewrite E in E'. inversion E'; subst s'. inversion HR; subst.
+  exists flat, es1. split; auto.
+  match goal with H : RefFlat _ _ _ |- _ => apply (RefFlat_all_none c AN) in H; inversion H; subst end.
+  rewrite app_nil_r. reflexivity.
+Qed.
+
+(* ------------------------------------------------------------------ C10_guard *)
+
+(* a linear chain o 0 -> o 1 -> ... that reaches neither a frame nor None within [uguard c]
+   unwraps: the (uguard c + 1)-th hook call is refused *)
+Lemma flatten_chain c (o : nat -> nat) :
+  (forall t, fault c t = false) -> g_unwrap (grd c) = true ->
+  (forall k, k < uguard c -> unwrap c (o k) = UOne (IObj (o (S k)))) ->
+  unwrap c (o (uguard c)) <> URaise ->
+  forall m j, j + m = uguard c ->
+  forall fuel org d te errs t, m + 2 <= fuel ->
+  exists t', flatten fuel j c [(org, QObj (o j), d)] te errs t =
+             FlOk (rev ((QObj (o (uguard c)), d + m) :: te)) (ELoop (QObj (o (uguard c))) :: errs) t'.
+Proof.
+  intros NF GU CH NR. induction m as [|m IH]; intros j EJ fuel org d te errs t LE.
+  - assert (j = uguard c) by lia. subst j.
+    destruct fuel as [|[|fuel]]; try lia. rewrite Nat.add_0_r.
+    cbn [flatten]. rewrite NF, GU.
+    assert (G : (uguard c <? S (uguard c)) = true) by (apply Nat.ltb_lt; lia).
+    rewrite G.
+    destruct (unwrap c (o (uguard c))); try congruence; eauto.
+  - destruct fuel as [|fuel]; try lia.
+    cbn [flatten]. rewrite NF, GU, (CH j) by lia.
+    assert (G : (uguard c <? S j) = false) by (apply Nat.ltb_ge; lia).
+    rewrite G. cbn [map app q_of].
+    replace (d + S m) with (S d + m) by lia.
+    apply IH; lia.
+Qed.
+
+Lemma guard_run c (o : nat -> nat) fuel t :
+  (forall t, fault c t = false) -> g_unwrap (grd c) = true ->
+  (forall k, k < uguard c -> unwrap c (o k) = UOne (IObj (o (S k)))) ->
+  unwrap c (o (uguard c)) <> URaise ->
+  uguard c + 2 <= fuel ->
+  fst (run fuel false c (root_q c (IObj (o 0))) [] [] [] t)
+  = Ok (Stack [] (LOne (QObj (o (uguard c)))) [ELoop (QObj (o (uguard c)))]).
+Proof.
+  intros NF GU CH NR LE. destruct fuel as [|fuel]; [lia|].
+  destruct (flatten_chain c o NF GU CH NR (uguard c) 0 eq_refl (S fuel)
+              (better_origin c (QObj (o 0)) None) 0 [] [] t) as [t' E]; [lia|].
+  cbn [run rev app]. unfold root_q. cbn [q_of]. rewrite E. reflexivity.
+Qed.
+
+Lemma guard_extract c (o : nat -> nat) :
+  (forall t, fault c t = false) -> g_unwrap (grd c) = true ->
+  uguard c = SrcFacts.unwrap_guard ->
+  (forall k, k < SrcFacts.unwrap_guard -> unwrap c (o k) = UOne (IObj (o (S k)))) ->
+  unwrap c (o SrcFacts.unwrap_guard) <> URaise ->
+  extract c (IObj (o 0))
+  = Ok (Stack [] (LOne (QObj (o SrcFacts.unwrap_guard))) [ELoop (QObj (o SrcFacts.unwrap_guard))]).
+Proof.
+  intros NF GU UG CH NR. rewrite <- UG in *.
+  unfold extract, extract_t. apply guard_run; auto.
+  rewrite UG. apply Nat.leb_le. vm_compute. reflexivity.
+Qed.
+
+(* ------------------------------------------------------------------ C10_iter_keeps_prefix *)
+
+(* c2 is c except that object o, whose hook in c returns an iterator that yields l and then
+   raises, returns the plain sequence l in c2 *)
+Definition iter_as_seq (c c2 : cfg) (o : nat) (l : list item) : Prop :=
+  unwrap c o = UIter l true /\ unwrap c2 o = USeq (map Some l) /\
+  (forall o', o' <> o -> unwrap c2 o' = unwrap c o') /\
+  (forall f, elab c2 f = elab c f) /\ (forall f, prehide c2 f = prehide c f) /\
+  uguard c2 = uguard c.
+
+Lemma somes_map_Some {A} (l : list A) : somes (map Some l) = l.
+Proof. induction l; simpl; congruence. Qed.
+
+Lemma Unw_iter_as_seq c c2 o l : iter_as_seq c c2 o l ->
+  forall n seq out es, Unw c n seq out es -> exists es', Unw c2 n seq out es'.
+Proof.
+  intros (U1 & U2 & UO & EL & PH & UG) n seq out es H.
+  induction H; try destruct IHUnw as [es' IH].
+  - eexists; constructor.
+  - eexists; constructor; eauto.
+  - destruct (Nat.eq_dec o0 o) as [->|NE]; [congruence|].
+    eexists; apply U_raise; eauto. rewrite UO; auto.
+  - eexists; apply U_guard; eauto; try lia.
+    destruct s as [f|o0|]; simpl in *; auto.
+    destruct (Nat.eq_dec o0 o) as [->|NE]; [rewrite U2; discriminate|rewrite UO; auto].
+  - eexists; apply U_irreducible; eauto; try lia.
+    destruct s as [f|o0|]; simpl in *; auto.
+    destruct (Nat.eq_dec o0 o) as [->|NE]; [congruence|rewrite UO; auto].
+  - destruct (Nat.eq_dec o0 o) as [->|NE]; [congruence|].
+    eexists; eapply U_item; eauto; try lia. rewrite UO; eauto.
+  - destruct (Nat.eq_dec o0 o) as [->|NE]; [congruence|].
+    eexists; eapply U_seq; eauto; try lia. rewrite UO; eauto.
+  - destruct (Nat.eq_dec o0 o) as [->|NE].
+    + rewrite U1 in H. inversion H; subst.
+      eexists; eapply U_seq; eauto; try lia. rewrite somes_map_Some. eauto.
+    + eexists; eapply U_iter; eauto; try lia. rewrite UO; eauto.
+Qed.
+
+Lemma RefFlat_iter_as_seq c c2 o l : iter_as_seq c c2 o l ->
+  forall flat r, RefFlat c flat r ->
+  exists es', RefFlat c2 flat (fst (fst r), snd (fst r), es').
+Proof.
+  intros IS flat r H. pose proof IS as (U1 & U2 & UO & EL & PH & UG).
+  induction H; simpl in *.
+  - eexists; constructor.
+  - eexists; apply RF_leaf; auto.
+  - destruct IHRefFlat as [es' IH]. rewrite <- PH.
+    eexists; apply RF_keep; eauto; rewrite EL; auto.
+  - destruct IHRefFlat as [es' IH]. rewrite <- PH.
+    match goal with HU0 : Unw c _ _ _ _ |- _ =>
+      destruct (Unw_iter_as_seq c c2 o l IS _ _ _ _ HU0) as [es1' HU] end.
+    eexists; eapply RF_replace; eauto; rewrite EL; auto.
+  - destruct IHRefFlat as [es' IH]. rewrite <- PH.
+    match goal with HU0 : Unw c _ _ _ _ |- _ =>
+      destruct (Unw_iter_as_seq c c2 o l IS _ _ _ _ HU0) as [es1' HU] end.
+    eexists; eapply RF_insert; eauto; rewrite EL; auto.
+  - destruct IHRefFlat as [es' IH].
+    match goal with HU0 : Unw c _ _ _ _ |- _ =>
+      destruct (Unw_iter_as_seq c c2 o l IS _ _ _ _ HU0) as [es1' HU] end.
+    eexists; eapply RF_raise; eauto; rewrite EL; auto.
+Qed.
+
+Lemma iter_keeps_prefix c c2 o l root s s2 :
+  plain c -> plain c2 -> iter_as_seq c c2 o l ->
+  extract c root = Ok s -> extract c2 root = Ok s2 ->
+  fst (view s) = fst (view s2).
+Proof.
+  intros P P2 IS E E2.
+  destruct (model_eq_ref c root P) as (s' & E' & HR); [congruence|].
+  rewrite E in E'. inversion E'; subst s'.
+  inversion HR as [seq flat es1 frs lf es2 HU1 HF1 EQ1 EQ2]; subst.
+  destruct (Unw_iter_as_seq c c2 o l IS _ _ _ _ HU1) as [es1' HU].
+  destruct (RefFlat_iter_as_seq c c2 o l IS _ _ HF1) as [es2' HF]. simpl in HF.
+  assert (R2 : Ref c2 [(s_of root, 0)] (frs, lf, es1' ++ es2')) by (econstructor; eauto).
+  rewrite (model_eq_ref_unique c2 root s2 _ P2 E2 R2). reflexivity.
+Qed.
+
+(* ------------------------------------------------------------------ the configurations of the
+   generated cases (no faults, no contexts, all guards) are plain, whatever the tables *)
+Lemma mkcfg_plain u e a cx fl ug : plain (mkcfg u e a cx fl [] false all_guards ug).
+Proof. repeat split. Qed.
+
+Lemma guards_regenerated :
+  extract_g_unwrap = g_unwrap all_guards /\ extract_g_iter = g_iter all_guards /\
+  extract_g_elab = g_elab all_guards.
+Proof. repeat split. Qed.
+
+(* ------------------------------------------------------------------ Examples: the hypotheses of
+   the theorems are met by non-trivial inputs *)
+
+(* insert inside insert, then a prune issued by the (re-depthed) next_inner; a None element in a
+   sequence; an iterator that raises after two items *)
+Definition ex_cfg : cfg :=
+  mkcfg [(0, USeq [Some (IPy 0); None; Some (IObj 1)]); (1, UIter [IPy 2; IPy 3] true)]
+        [(0, (ESeq [RItem (IPy 1); RNext], true)); (1, (ESeq [RItem (IPy 4); RNext], false));
+         (2, (ESeq [], false))]
+        [] [] [] [] false all_guards 100.
+Definition ex_cfg2 : cfg :=
+  mkcfg [(0, USeq [Some (IPy 0); None; Some (IObj 1)]); (1, USeq [Some (IPy 2); Some (IPy 3)])]
+        [(0, (ESeq [RItem (IPy 1); RNext], true)); (1, (ESeq [RItem (IPy 4); RNext], false));
+         (2, (ESeq [], false))]
+        [] [] [] [] false all_guards 100.
+
+Example ex_plain : plain ex_cfg.
+Proof. apply mkcfg_plain. Qed.
+
+Example ex_extract :
+  extract ex_cfg (IObj 0) =
+  Ok (Stack [FOut 0 true None []; FOut 1 false None []; FOut 4 true None []; FOut 2 false None []]
+            LNone [EIter 1]).
+Proof. vm_compute. reflexivity. Qed.
+
+Example ex_not_out_of_fuel : extract ex_cfg (IObj 0) <> OutOfFuel.
+Proof. rewrite ex_extract. discriminate. Qed.
+
+Example ex_ref_run :
+  ref_run default_fuel ex_cfg [(s_of (IObj 0), 0)] =
+  Some ([(0, true); (1, false); (4, true); (2, false)], [], [EIter 1]).
+Proof. vm_compute. reflexivity. Qed.
+
+(* prune_exact / replace_rule / insert_rule: frame 2 (depth 1, PRUNE) before its callee at depth 2
+   and an outward entry at depth 0 *)
+Example ex_prune_state :
+  let rest := [(QFr 3 None, 2); (QFr 9 None, 0)] in
+  nopy rest /\ elab ex_cfg 2 = ESeq [] /\
+  callees 1 rest = [(QFr 3 None, 2)] /\ survivors 1 rest = [(QFr 9 None, 0)].
+Proof.
+  repeat split. intros f d [H|[H|[]]]; discriminate.
+Qed.
+
+Example ex_insert_state :
+  let rest := [(QFr 2 None, 2); (QFr 3 None, 2)] in
+  nopy rest /\ elab ex_cfg 0 = ESeq ([RItem (IPy 1)] ++ [RNext]) /\
+  is_next (next_of_s (map er_t rest)) RNext = true /\
+  redepth_s 1 (map er_t rest) = [(SFrame 2, 1); (SFrame 3, 2)].
+Proof.
+  repeat split. intros f d [H|[H|[]]]; discriminate.
+Qed.
+
+Example ex_replace_state :
+  let c := mkcfg [] [(0, (ESeq [RItem (IObj 7)], true))] [] [] [] [] false all_guards 100 in
+  let rest := [(QFr 2 None, 2); (QFr 3 None, 0)] in
+  plain c /\ nopy rest /\ elab c 0 = ESeq [RItem (IObj 7)] /\
+  ends_next (next_of_s (map er_t rest)) [RItem (IObj 7)] = false.
+Proof.
+  repeat split. intros f d [H|[H|[]]]; discriminate.
+Qed.
+
+Example ex_iter_as_seq : plain ex_cfg2 /\ iter_as_seq ex_cfg ex_cfg2 1 [IPy 2; IPy 3].
+Proof.
+  split; [apply mkcfg_plain|]. repeat split.
+  intros o' NE. destruct o' as [|[|o']]; try reflexivity. congruence.
+Qed.
+
+Example ex_all_none :
+  let c := mkcfg [(0, USeq [Some (IPy 0); Some (IObj 1)]); (1, UOne (IPy 1))] [] [] [] [] [] false all_guards 100 in
+  plain c /\ (forall f, elab c f = ENone) /\
+  extract c (IObj 0) = Ok (Stack [FOut 0 true None []; FOut 1 true None []] LNone []).
+Proof. repeat split. Qed.
+
+(* the guard: the infinite chain 0 -> 1 -> 2 -> ... *)
+Definition chain_cfg : cfg :=
+  {| unwrap := fun o => UOne (IObj (S o)); elab := fun _ => ENone; prehide := fun _ => false;
+     attr := fun _ => default_attr; ctxs := fun _ => CtxOk []; fill := fun _ => FillOk [];
+     fault := fun _ => false; with_ctx := false; grd := all_guards;
+     uguard := SrcFacts.unwrap_guard |}.
+
+Example ex_guard :
+  extract chain_cfg (IObj 0)
+  = Ok (Stack [] (LOne (QObj SrcFacts.unwrap_guard)) [ELoop (QObj SrcFacts.unwrap_guard)]).
+Proof.
+  apply (guard_extract chain_cfg (fun k => k)); try reflexivity. discriminate.
 Qed.
